@@ -2,7 +2,7 @@
 
 spec/traverse/UtxoEffects.tla
   MC : MCUtxoEffects - every projected transaction over a 3-reference alphabet (inputs <= 3 with duplicates,
-       collateral <= 2, 0..2 outputs, both flags, with/without collateral return, Alonzo/Babbage/Conway); laws of the
+       collateral <= 2, 0..2 outputs, both flags, with/without collateral return, Alonzo/Babbage in MC, + Conway in M1); laws of the
        observers and uniqueness of the sorted set
   M1 : GenUtxoEffects - expected consumes / produces / produces_at / sorted set for each of them -> synthetic
        transactions encoded by the harness, decoded by MultiEraTx::decode_for_era, observers compared
@@ -28,6 +28,8 @@ def run(ctx):
     # 1. exhaustive model check
     cfg = ctx.path("MC.cfg")
     src = open(os.path.join(vlib.SPEC, SPEC_DIR, "MCUtxoEffects.cfg")).read()
+    if ctx.thorough:
+        src = src.replace("MaxOut = 2", "MaxOut = 3")
     open(cfg, "w").write(src.replace("Refs3", refs))
     ctx.tlc_mc(SPEC_DIR, "MCUtxoEffects", cfg, workers=4, timeout=1700,
                required_actions=["CallConsumes", "CallProduces", "CallProducesAt", "CallSortedSet"])
@@ -35,6 +37,8 @@ def run(ctx):
     # 2. M1: TLC vectors -> synthetic transactions -> real observers
     gcfg = ctx.path("Gen.cfg")
     src = open(os.path.join(vlib.SPEC, SPEC_DIR, "GenUtxoEffects.cfg")).read()
+    if ctx.thorough:
+        src = src.replace("MaxOut = 2", "MaxOut = 3")
     open(gcfg, "w").write(src.replace("Refs3", refs))
     vec = ctx.path("vectors.ndjson")
     n = ctx.tlc_gen(SPEC_DIR, "GenUtxoEffects", gcfg, vec, timeout=1700)
@@ -72,7 +76,7 @@ def run(ctx):
     tr_all = ctx.path("trace_all.ndjson")
     args = ["utxo-trace", "--seed", ctx.seed, "--out", tr_all]
     if ctx.thorough:
-        args += ["--chunk-blocks", 400, "--per-block", 25]
+        args += ["--chunk-blocks", 2000, "--per-block", 40]
     ctx.run_bin(binary, args)
     allev = vlib.read_ndjson(tr_all)
     events = [e for e in allev if e["ev"] in ("tx", "panic")]
@@ -143,8 +147,8 @@ def run(ctx):
         ctx.selftest("drop event %d" % (idx + 1), (not ok3) and m3 == idx)
 
     return ctx.finish(
-        rule="MC: all projected transactions over %s (inputs<=3, collateral<=2, outputs<=2, both flags, +-collateral "
+        rule="MC: all projected transactions over %s (inputs<=3, collateral<=2, outputs<=%d, both flags, +-collateral "
              "return, 3 eras); M1: each of them built as CBOR, decoded and observed through MultiEraTx; M3: every corpus "
              "transaction under both validity flags, projection from the wire bytes, observers validated by "
-             "TraceUtxoEffects" % refs,
+             "TraceUtxoEffects" % (refs, 3 if ctx.thorough else 2),
         exhaustive=False)
